@@ -243,9 +243,48 @@ def step_table(ctx: Ctx, rule: str) -> None:
                "" if not bad2 else f"an object-level tool changed its parameters: {sorted(bad2)}")
     f = ctx.repo.func(f"{IS}:_reuse_tool_with_param_dict")
     body = [ast.unparse(s) for s in f.node.body if not (isinstance(s, ast.Expr) and isinstance(s.value, ast.Constant))]
-    ok3 = body == ["setup_dict = config['param_dict'].copy()", "config['param_dict'].update(param_dict)", "tool(config, tag=tag)", "config['param_dict'] = setup_dict"]
+    # save a copy, apply, run the tool (once), restore; the tool's status may be carried through (see rule 5x)
+    ok3 = body in (["setup_dict = config['param_dict'].copy()", "config['param_dict'].update(param_dict)", "tool(config, tag=tag)", "config['param_dict'] = setup_dict"],
+                   ["setup_dict = config['param_dict'].copy()", "config['param_dict'].update(param_dict)", "status = tool(config, tag=tag)", "config['param_dict'] = setup_dict", "return status"])
+    if not ok3 and len(body) == 3 and body[2].startswith("try:"):
+        t = f.node.body[-1]
+        ok3 = (body[:2] == ["setup_dict = config['param_dict'].copy()", "config['param_dict'].update(param_dict)"] and isinstance(t, ast.Try) and not t.handlers
+               and [ast.unparse(x) for x in t.body] == ["return tool(config, tag=tag)"] and [ast.unparse(x) for x in t.finalbody] == ["config['param_dict'] = setup_dict"])
     ctx.record(rule + "p", "PAIR", f.ref, "the temporary parameters are applied for the reused tool only: a copy is saved before and restored after", ok3, {"body": body},
                "" if ok3 else "parameters of create/collect/clean leak into the later steps of a chain")
+    # status propagation: a step that reuses a status-returning tool hands that status on (Manu.run counts None as success)
+    status_tools = {fn_.name for fn_ in tree.body if isinstance(fn_, ast.FunctionDef) and any("with_cartesian_graph" in ast.unparse(d) for d in fn_.decorator_list)} | {"run"}
+
+    def returns_value_of(fn_node, call):
+        """The value of `call` is what the function returns (directly, or through one local that nothing else assigns)."""
+        for r in ast.walk(fn_node):
+            if isinstance(r, ast.Return) and r.value is call:
+                return True
+        for a in ast.walk(fn_node):
+            if isinstance(a, ast.Assign) and a.value is call and len(a.targets) == 1 and isinstance(a.targets[0], ast.Name):
+                v = a.targets[0].id
+                others = [x for x in ast.walk(fn_node) if isinstance(x, (ast.Assign, ast.AugAssign)) and x is not a and any(isinstance(t, ast.Name) and t.id == v for t in (x.targets if isinstance(x, ast.Assign) else [x.target]))]
+                rets = [r for r in ast.walk(fn_node) if isinstance(r, ast.Return)]
+                if not others and rets and all(isinstance(r.value, ast.Name) and r.value.id == v for r in rets) and isinstance(fn_node.body[-1], ast.Return):
+                    return True
+        return False
+
+    carriers = {"_reuse_tool_with_param_dict": "tool"}
+    dropped = []
+    n_sites = 0
+    for fn_ in tree.body:
+        if not isinstance(fn_, ast.FunctionDef):
+            continue
+        for c in calls_in(fn_):
+            nm = call_name(c)
+            is_status = (isinstance(c.func, ast.Name) and (nm in status_tools or nm in carriers)) or (fn_.name in carriers and isinstance(c.func, ast.Name) and nm == carriers[fn_.name])
+            if not is_status or fn_.name == "with_cartesian_graph":
+                continue
+            n_sites += 1
+            if not returns_value_of(fn_, c):
+                dropped.append(f"{fn_.name}: {ast.unparse(c)[:60]}")
+    ctx.record(rule + "x", "PROV", IS, "a step that runs another status-returning step (directly or through _reuse_tool_with_param_dict) returns that status", not dropped and n_sites >= 4,
+               {"sites": n_sites, "dropped": dropped}, "" if not dropped else f"the exit status of a reused step is dropped (Manu.run reads None as success, a failing step is not reported): {dropped}")
     # vm management steps: each runs the one manage.<variant> node per worker through the per-worker template
     bad3 = {}
     for name, variant in (("boot", "start"), ("shutdown", "stop"), ("download", "download"), ("upload", "upload"), ("control", "run")):
